@@ -12,9 +12,12 @@ MODULES = {
     "C01": "p_wire",
     "C03": "p_wire",
     "C04": "p_rules",
+    "C05": "p_pipe",
     "C06": "p_wire",
     "C08": "p_wire",
     "C12": "p_rules",
+    "C15": "p_pipe",
+    "C16": "p_pipe",
     "C17": "p_entity",
     "C07": "p_lang",
     "C09": "p_bcl",
